@@ -145,3 +145,11 @@ META["C17"] = dict(
     note="Trusts the recording datastore (write log), the independent record decoder (internal/cborx + recordToView) and the subscriber recorder.",
     technique="runtime monitoring: offline comparison of recorded subscriber call logs against the datastore write log (exactly-once, order, state agreement)",
 )
+
+META["C19"] = dict(
+    text=("Held on K generated voucher/result exchange scripts with injected send failures (exact log contents on both sides after every step), on recorded concurrent "
+          "histories (porcupine, append-only list model), and on every state the other engines' workloads hand out (totality probe: all accessors under recover)."),
+    design_ref="DESIGN.md §2 C19",
+    note="Trusts the network double's failure injection and the StateView extraction (which is itself the totality probe).",
+    technique="runtime monitoring: totality probe on every observed state + reference lists for the voucher logs + porcupine linearizability check of concurrent histories",
+)
